@@ -237,7 +237,21 @@ class StmtMixin:
     def s_AnnAssign(self, st: ast.AnnAssign) -> None:
         if st.value is None:
             return
-        self.assign(st.target, self.eval(st.value), st)
+        v = self.eval(st.value)
+        # `d: dict[str, T] = {}` - remember the declared value type of a fresh container (checked by the users)
+        if isinstance(v, SDict) and isinstance(st.annotation, (ast.Subscript, ast.Constant)):
+            ann = st.annotation
+            if isinstance(ann, ast.Constant) and isinstance(ann.value, str):
+                try:
+                    ann = ast.parse(ann.value, mode="eval").body
+                except SyntaxError:
+                    ann = None
+            if isinstance(ann, ast.Subscript) and ast.unparse(ann.value).split(".")[-1] in ("dict", "Dict") \
+                    and isinstance(ann.slice, ast.Tuple) and len(ann.slice.elts) == 2:
+                ks = self.kinds_from_annotation(ann.slice.elts[1], self.frame.mod)
+                if ks is not None:
+                    v.__dict__["value_kinds"] = ks
+        self.assign(st.target, v, st)
 
     def s_AugAssign(self, st: ast.AugAssign) -> None:
         t = st.target
